@@ -224,7 +224,7 @@ func writeDoc(ps []control.Paragraph) (string, error) {
 
 var specC08Cycle = Register(&Spec[DocCase]{
 	Prop: "C08", Name: "cycle",
-	Rule: "every document of the C07 generator (2/3), and byte-level mutations of such documents and token soups incl. form feed, vertical tab, bare CR, NBSP, NEL, '#' and ':' in odd places as far as the reader accepts them (1/3), is read with the real reader, then taken through three write->read cycles (paragraphs written with WriteTo, separated by one blank line). Oracle: after every cycle the paragraph list has the same length, field order and values (up to one trailing newline) as the first read; no written paragraph contains an empty/whitespace-only line; the text after the second and third write equals the text after the first. Documents in which the reader produced a value starting with an empty line (known finding F14, while recorded) are excluded by construction and counted. Non-trivial: a multi-line value is present; distinct by text.",
+	Rule: "every document of the C07 generator (2/3), and byte-level mutations of such documents and token soups incl. form feed, vertical tab, bare CR, NBSP, NEL, BOM, zero-width and other Unicode blanks in the first column of a line (alone or in front of '#', '-', a blank, ':'), '#' and ':' in odd places as far as the reader accepts them (1/3), is read with the real reader, then taken through three write->read cycles (paragraphs written with WriteTo, separated by one blank line). Oracle: after every cycle the paragraph list has the same length, field order and values (up to one trailing newline) as the first read; no written paragraph contains an empty/whitespace-only line; the text after the second and third write equals the text after the first. Documents in which the reader produced a value starting with an empty line (known finding F14, while recorded) are excluded by construction and counted. Non-trivial: a multi-line value is present; distinct by text.",
 	Exclude: func(c DocCase) string {
 		orig, err := readParas(c.Text)
 		if err != nil {
@@ -308,13 +308,24 @@ func TestC08_Cycle(t *testing.T) {
 			// odd white space (form feed, vertical tab, bare CR, NBSP, NEL) that Go's
 			// TrimSpace treats as blank
 			if rapid.Bool().Draw(t, "soup") {
-				toks := []string{"A", "B", ":", " ", "\n", "\t", "#", ".", "x", "\r\n", "A: 1\n", " c\n", "\n\n", "é", "\f", "\v", "\r", "\u00a0", "\u0085", "#c: d\n", "-----BEGIN PGP ", "\f#k: v\n", ": v\n", "a b: c\n"}
+				toks := []string{"A", "B", ":", " ", "\n", "\t", "#", ".", "x", "\r\n", "A: 1\n", " c\n", "\n\n", "é", "\f", "\v", "\r", "\u00a0", "\u0085", "#c: d\n", "-----BEGIN PGP ", "\f#k: v\n", ": v\n", "a b: c\n", "\ufeff", "\ufeff#k: v\n", "\ufeff-k: v\n", "\ufeff k: v\n", "\ufeffA: 1\n", "\u200b", "\u2028", "\u3000", "\u1680", "\x00"}
 				n := rapid.IntRange(1, 12).Draw(t, "n")
 				var sb strings.Builder
 				for i := 0; i < n; i++ {
 					sb.WriteString(rapid.SampledFrom(toks).Draw(t, "tok"))
 				}
 				return DocCase{Text: sb.String(), Feats: []string{"raw-soup"}}
+			}
+			if rapid.IntRange(0, 2).Draw(t, "lineFront") == 0 {
+				// something invisible (or blank to Unicode but not to ASCII) in the first column of a
+				// line, optionally with a character behind it that means something in column one
+				lines := strings.SplitAfter(genDocCase(t, 3).Text, "\n")
+				for k := rapid.IntRange(1, 2).Draw(t, "lfn"); k > 0; k-- {
+					i := rapid.IntRange(0, len(lines)-1).Draw(t, "lfi")
+					lines[i] = rapid.SampledFrom([]string{"\ufeff", "\u200b", "\u00a0", "\u3000", "\u2028", "\u0085", "\f", "\v", "\x00", "\u00ad", "\u2060"}).Draw(t, "lfr") +
+						rapid.SampledFrom([]string{"", "", "#", "-", " ", "\t", ":", "."}).Draw(t, "lfc") + lines[i]
+				}
+				return DocCase{Text: strings.Join(lines, ""), Feats: []string{"raw-mutated"}}
 			}
 			return DocCase{Text: mutateBytes(t, genDocCase(t, 3).Text, ": \t\n\r#.-\f\v\u00a0", 3), Feats: []string{"raw-mutated"}}
 		}
